@@ -137,8 +137,19 @@ func CallOf(i ssa.Instruction) *ssa.CallCommon {
 	return nil
 }
 
-// Calls returns the call/go/defer instructions in fn that match any spec.
+// Calls returns the direct call instructions (not go / defer) in fn that match any spec.
 func Calls(fn *ssa.Function, specs ...CalleeSpec) []ssa.Instruction {
+	var out []ssa.Instruction
+	for _, i := range CallsAny(fn, specs...) {
+		if _, ok := i.(*ssa.Call); ok {
+			out = append(out, i)
+		}
+	}
+	return out
+}
+
+// CallsAny returns the call/go/defer instructions in fn that match any spec.
+func CallsAny(fn *ssa.Function, specs ...CalleeSpec) []ssa.Instruction {
 	var out []ssa.Instruction
 	Instrs(fn, func(i ssa.Instruction) {
 		c := CallOf(i)
@@ -490,6 +501,18 @@ func PathOf(v ssa.Value) string {
 		return PathOf(x.X)
 	case *ssa.MakeInterface:
 		return PathOf(x.X)
+	case *ssa.IndexAddr:
+		base := PathOf(x.X)
+		if base == "" {
+			return ""
+		}
+		return base + "[" + indexString(x.Index) + "]"
+	case *ssa.Index:
+		base := PathOf(x.X)
+		if base == "" {
+			return ""
+		}
+		return base + "[" + indexString(x.Index) + "]"
 	case *ssa.Phi:
 		// a phi all of whose edges are one path is that path
 		p := ""
@@ -912,4 +935,195 @@ func StripConv(v ssa.Value) ssa.Value {
 			return v
 		}
 	}
+}
+
+// ---------------------------------------------------------------------------
+// Field accesses
+
+// FieldRef is an access to a struct field.
+type FieldRef struct {
+	Instr ssa.Instruction // the load, store, or other user
+	Addr  ssa.Value       // FieldAddr / Field
+	Kind  string          // "load", "store", "addr" (address escapes to another use)
+	Val   ssa.Value       // stored value for stores
+}
+
+// FieldRefs lists accesses in fn to field `field` of named type `typ` (any package;
+// pkgPath "" = any).
+func FieldRefs(fn *ssa.Function, pkgPath, typ, field string) []FieldRef {
+	var out []FieldRef
+	Instrs(fn, func(i ssa.Instruction) {
+		switch x := i.(type) {
+		case *ssa.FieldAddr:
+			if !isNamedField(x.X.Type(), x.Field, pkgPath, typ, field) {
+				return
+			}
+			refs := x.Referrers()
+			if refs == nil {
+				return
+			}
+			for _, r := range *refs {
+				switch r := r.(type) {
+				case *ssa.UnOp:
+					if r.Op == token.MUL {
+						out = append(out, FieldRef{r, x, "load", nil})
+						continue
+					}
+					out = append(out, FieldRef{r, x, "addr", nil})
+				case *ssa.Store:
+					if r.Addr == x {
+						out = append(out, FieldRef{r, x, "store", r.Val})
+					} else {
+						out = append(out, FieldRef{r, x, "addr", nil})
+					}
+				case *ssa.DebugRef:
+				default:
+					out = append(out, FieldRef{r, x, "addr", nil})
+				}
+			}
+		case *ssa.Field:
+			if isNamedField(x.X.Type(), x.Field, pkgPath, typ, field) {
+				out = append(out, FieldRef{x, x, "load", nil})
+			}
+		}
+	})
+	return out
+}
+
+func isNamedField(t types.Type, idx int, pkgPath, typ, field string) bool {
+	n := namedOf(t)
+	if n == nil || n.Obj().Name() != typ {
+		return false
+	}
+	if pkgPath != "" && (n.Obj().Pkg() == nil || n.Obj().Pkg().Path() != pkgPath) {
+		return false
+	}
+	return fieldName(t, idx) == field
+}
+
+// LeafLoads returns the load instructions (and len/cap calls) that a value is
+// computed from, walking through arithmetic, negation, conversions and phis.
+func LeafLoads(v ssa.Value) []ssa.Instruction {
+	var out []ssa.Instruction
+	seen := map[ssa.Value]bool{}
+	var walk func(ssa.Value)
+	walk = func(x ssa.Value) {
+		if x == nil || seen[x] {
+			return
+		}
+		seen[x] = true
+		switch y := x.(type) {
+		case *ssa.UnOp:
+			if y.Op == token.MUL {
+				out = append(out, y)
+				return
+			}
+			walk(y.X)
+		case *ssa.BinOp:
+			walk(y.X)
+			walk(y.Y)
+		case *ssa.Phi:
+			for k, e := range y.Edges {
+				walk(e)
+				// short-circuit && / ||: the left operand is the If condition of the predecessor
+				if c, ok := e.(*ssa.Const); ok && c.Value != nil && isBool(y.Type()) {
+					pred := y.Block().Preds[k]
+					if iff, ok := pred.Instrs[len(pred.Instrs)-1].(*ssa.If); ok {
+						walk(iff.Cond)
+					}
+				}
+			}
+		case *ssa.Convert:
+			walk(y.X)
+		case *ssa.ChangeType:
+			walk(y.X)
+		case *ssa.Call:
+			if b, ok := y.Call.Value.(*ssa.Builtin); ok && (b.Name() == "len" || b.Name() == "cap") {
+				out = append(out, y)
+				walk(y.Call.Args[0])
+			} else {
+				out = append(out, y)
+			}
+		case *ssa.Lookup:
+			out = append(out, y)
+		case *ssa.Extract:
+			walk(y.Tuple)
+		}
+	}
+	walk(v)
+	return out
+}
+
+// DynCallsThrough returns calls in fn whose callee value is a load of the given field.
+func DynCallsThrough(fn *ssa.Function, typ, field string) []ssa.Instruction {
+	var out []ssa.Instruction
+	Instrs(fn, func(i ssa.Instruction) {
+		c := CallOf(i)
+		if c == nil || c.IsInvoke() {
+			return
+		}
+		if IsFieldAccess(c.Value, typ, field) {
+			out = append(out, i)
+		}
+	})
+	return out
+}
+
+// IsRangeIndex reports whether v is the induction value of a `for i := range slice` loop
+// (the t+1 of the rangeindex phi).
+func IsRangeIndex(v ssa.Value) bool {
+	bo, ok := v.(*ssa.BinOp)
+	if !ok || bo.Op != token.ADD {
+		return false
+	}
+	phi, ok := bo.X.(*ssa.Phi)
+	if !ok || phi.Comment != "rangeindex" {
+		return false
+	}
+	n, ok := ConstInt(bo.Y)
+	return ok && n == 1
+}
+
+func indexString(v ssa.Value) string {
+	if IsRangeIndex(v) {
+		return "#i"
+	}
+	if n, ok := ConstInt(v); ok {
+		return itoa(int(n))
+	}
+	if p := PathOf(v); p != "" {
+		return p
+	}
+	return "?" + v.Name()
+}
+
+// ResultAt resolves result k of a return: when results are spilled to a local
+// (functions with defer / named results) it returns the value stored last into
+// that local in the return's block; otherwise the result itself.
+func ResultAt(ret *ssa.Return, k int) ssa.Value {
+	if k >= len(ret.Results) {
+		return nil
+	}
+	v := ret.Results[k]
+	ld, ok := v.(*ssa.UnOp)
+	if !ok || ld.Op != token.MUL {
+		return v
+	}
+	al, ok := ld.X.(*ssa.Alloc)
+	if !ok {
+		return v
+	}
+	b := ret.Block()
+	for b != nil {
+		for j := len(b.Instrs) - 1; j >= 0; j-- {
+			if st, ok := b.Instrs[j].(*ssa.Store); ok && st.Addr == al {
+				return st.Val
+			}
+		}
+		if len(b.Preds) != 1 {
+			break
+		}
+		b = b.Preds[0]
+	}
+	return v
 }
